@@ -45,7 +45,10 @@ JAf(T) ==
   /\ TLCSet(4, TLCGet(4) + 1)
   /\ ((failed <=> Fails(s)) \/ Say(T, "M", "asm_format_cli", "fails-iff-unknown-format"))
   /\ (failed \/ T.where = (IF s.o = "" THEN "stdout" ELSE "file") \/ Say(T, "M", "asm_format_cli", "output-destination"))
-  /\ (failed \/ of \notin {"AGP", "TPF"} \/ T.lines = ExpectedLines(s) \/ Say(T, "M", "asm_format_cli", "text/" \o of))
+  \* C05 ("asm-format output"): converting through the tool loses and adds no line - the text written is the inputs, each in the output format
+  /\ (failed \/ of \notin {"AGP", "TPF"} \/ T.lines = ExpectedLines(s)
+        \/ Say(T, "V", "C05.asm_format_output", of \o (IF NInputs(s) > 1 THEN "/several-inputs" ELSE IF s.files = <<>> THEN "/stdin" ELSE "/one-input")
+                                                   \o (IF s.o = "" THEN "/to-stdout" ELSE "/to-file")))
   /\ (failed \/ of # "REPR" \/ (Len(T.reprs) = NInputs(s) /\ \A k \in 1..NInputs(s) :
           T.reprs[k].name = ExpectedNames(s)[k] /\ T.reprs[k].header = AsmOf(s, k).header /\ T.reprs[k].scaffolds = AsmOf(s, k).scaffolds)
         \/ Say(T, "M", "asm_format_cli", "repr"))
